@@ -791,8 +791,20 @@ func (m *Model) deadLetter(e *ED, t0, t1 time.Time) {
 			ex.State = stOut
 			ex.Cause = "dlforward"
 			ex.CreHi = t1
-			ex.LeaseHi = t1.Add(ds.Cfg.Delay)
-			ex.RetHi = t1.Add(ds.Cfg.Retention)
+			// created either when the move first became possible or now; the target's
+			// retention / delay may have been changed in between
+			if x := t1.Add(ds.Cfg.Delay); x.After(ex.LeaseHi) || ex.LeaseHi.Equal(farFuture) {
+				ex.LeaseHi = x
+			}
+			if x := t0.Add(ds.Cfg.Delay); x.Before(ex.LeaseLo) {
+				ex.LeaseLo = x
+			}
+			if x := t1.Add(ds.Cfg.Retention); x.After(ex.RetHi) || ex.RetHi.Equal(farFuture) {
+				ex.RetHi = x
+			}
+			if x := t0.Add(ds.Cfg.Retention); x.Before(ex.RetLo) {
+				ex.RetLo = x
+			}
 			continue
 		}
 		if wasMaybe {
@@ -1315,6 +1327,22 @@ func (m *Model) Nack(ids []string, t0, t1 time.Time) {
 			}
 			if hi.After(e.LeaseHi) {
 				e.LeaseHi = hi
+			}
+		}
+	}
+}
+
+// ConfigChanged must be called after a subscription's retention or delivery delay changed:
+// optional forwarded copies whose creation time is still open may be created under the new
+// values.
+func (m *Model) ConfigChanged(s *MSub) {
+	for _, e := range s.EDs {
+		if e.Fuzzy && e.Cause == "dlforward-maybe" {
+			if x := e.CreLo.Add(s.Cfg.Retention); x.Before(e.RetLo) {
+				e.RetLo = x
+			}
+			if x := e.CreLo.Add(s.Cfg.Delay); x.Before(e.LeaseLo) {
+				e.LeaseLo = x
 			}
 		}
 	}
